@@ -428,3 +428,15 @@ func (v *Verifier) AllFuncKeys() map[string]bool {
 	}
 	return out
 }
+
+func (v *Verifier) contractFileOfKey(key string) *ContractFile {
+	for _, cf := range v.Contracts {
+		if _, ok := cf.Contracts[key]; ok {
+			return cf
+		}
+		if _, ok := cf.Externs[key]; ok {
+			return cf
+		}
+	}
+	return v.anyContractFile()
+}
